@@ -813,6 +813,123 @@ def compound_eq(ty, dv, g):
     return True, None
 
 
+# ----------------------------------------------------------------------------- typed value vs raw bytes (all files)
+
+IEEE_PROPS = {4: (0, 32, 23, 8, 0, 23, 127), 8: (0, 64, 52, 11, 0, 52, 1023)}
+
+
+def float_props(hexprops):
+    b = bytes.fromhex(hexprops or "")
+    if len(b) < 12:
+        return None
+    return (int.from_bytes(b[0:2], "little"), int.from_bytes(b[2:4], "little"), b[4], b[5], b[6], b[7], int.from_bytes(b[8:12], "little"))
+
+
+def int_props_plain(hexprops, size):
+    b = bytes.fromhex(hexprops or "")
+    if len(b) < 4:
+        return False
+    return int.from_bytes(b[0:2], "little") == 0 and int.from_bytes(b[2:4], "little") == 8 * size
+
+
+def expected_from_raw(cls, size, bits, props, raw, n):
+    """Independent expectation for the first n elements from the raw element bytes (format rules = Model/RefDecode.v):
+    list of ('int', v) / ('fbits', int bits, size) / ('str', bytes), or None when the type is outside the model."""
+    if size <= 0:
+        return None
+    n = min(n, len(raw) // size)
+    order = "BE" if bits & 1 else "LE"
+    if cls == 0 and size in (1, 2, 4, 8) and int_props_plain(props, size):
+        signed = bool(bits & 8)
+        return [("int", dec_int_py(order, signed, size, raw[i * size:(i + 1) * size]), order, signed) for i in range(n)]
+    if cls == 1 and size in (4, 8) and not bits & 0x40 and float_props(props) == IEEE_PROPS[size]:
+        return [("fbits", int.from_bytes(raw[i * size:(i + 1) * size], "little" if order == "LE" else "big")) for i in range(n)]
+    if cls == 3 and (bits & 0x0F) in (0, 1, 2):
+        pad = ("nullterm", "nullpad", "spacepad")[bits & 0x0F]
+        return [("str", canon_string(pad, raw[i * size:(i + 1) * size]), pad) for i in range(n)]
+    return None
+
+
+def fbits(x, size):
+    return int.from_bytes(struct.pack(">f" if size == 4 else ">d", x), "big")
+
+
+def consistency_file(C, fname, out):
+    """Every typed value the reader returned must be the format's decoding of the element bytes it located.
+    Runs on every corpus file that opens (with or without DDL)."""
+    extra = out.get("extra") or {}
+    for g in out["dump"]["objects"]:
+        path = norm_path(g["path"])
+        if go_kind(g) == "dataset" and g.get("raw") is not None and not g.get("rawerr"):
+            ex = extra.get(g["path"]) or {}
+            raw = bytes.fromhex(g["raw"])
+            cls, size, bits = g.get("class", -1), g.get("size", 0), g.get("bits", 0)
+            if not g.get("readerr") and g.get("read") is not None and cls in (0, 1):
+                vals = [struct.unpack(">d", bytes.fromhex(x))[0] for x in g["read"]]
+                exp = expected_from_raw(cls, size, bits, ex.get("props"), raw, len(vals))
+                consistency_compare(C, fname, path, cls, size, exp, vals, raw, "f64")
+            if cls == 3 and not g.get("strerr") and g.get("strings") is not None:
+                vals = [bytes.fromhex(x) for x in g["strings"]]
+                exp = expected_from_raw(cls, size, bits, ex.get("props"), raw, len(vals))
+                consistency_compare(C, fname, path, cls, size, exp, vals, raw, "str")
+        if go_kind(g) in ("group", "dataset") and not g.get("attrerr"):
+            ex = extra.get(g["path"]) or {}
+            aprops = {t["name"]: t for t in ex.get("attrtypes") or []}
+            for a in g.get("attrs") or []:
+                if a.get("valerr") or not a.get("value"):
+                    continue
+                gv = parse_go_value(a["value"])
+                if gv[0] not in ("int", "f32", "f64", "str"):
+                    continue
+                raw = bytes.fromhex(a.get("data") or "")
+                t = aprops.get(a["name"]) or {}
+                where = path + "@" + bytes.fromhex(a["name"]).decode("utf-8", "surrogateescape")
+                exp = expected_from_raw(a["class"], a["size"], a["bits"], t.get("props"), raw, len(gv[1]))
+                consistency_compare(C, fname, where, a["class"], a["size"], exp, gv[1], raw, gv[0])
+
+
+def consistency_compare(C, fname, where, cls, size, exp, vals, raw, gkind):
+    if exp is None:
+        return
+    bad = 0
+    first = None
+    n = min(len(exp), len(vals))
+    for i in range(n):
+        e, v = exp[i], vals[i]
+        ok = True
+        if e[0] == "int":
+            gi = v if gkind == "int" else (int_of_float(v) if gkind in ("f64", "f32") else None)
+            ok = gi == e[1]
+            key = (e[2], e[3], size, raw[i * size:(i + 1) * size].hex())
+            if ok and key not in C.int_cases:
+                C.int_cases[key] = [e[1], gi, "%s:%s[%d] (no DDL: format oracle)" % (fname, where, i)]
+        elif e[0] == "fbits":
+            if gkind == "f32" and size == 4:
+                ok = fbits(v, 4) == e[1] or (math.isnan(v) and math.isnan(struct.unpack(">f", e[1].to_bytes(4, "big"))[0]))
+            elif gkind == "f64" and size == 8:
+                ok = fbits(v, 8) == e[1] or (math.isnan(v) and math.isnan(struct.unpack(">d", e[1].to_bytes(8, "big"))[0]))
+            elif gkind == "f64" and size == 4:
+                w = struct.unpack(">f", e[1].to_bytes(4, "big"))[0]
+                ok = (v == w) or (math.isnan(v) and math.isnan(w))
+            else:
+                ok = False
+        elif e[0] == "str":
+            ok = gkind == "str" and v == e[1]
+            key = (e[2], raw[i * size:(i + 1) * size].hex())
+            if ok and key not in C.str_cases:
+                C.str_cases[key] = [e[1].hex(), v.hex(), "%s:%s[%d] (no DDL: format oracle)" % (fname, where, i)]
+        if not ok:
+            bad += 1
+            if first is None:
+                first = (i, e, v)
+    C.stats["typed_vs_raw_elements"] += n
+    if bad:
+        e = first[1]
+        shown = e[1] if e[0] != "fbits" else "float bits 0x%x" % e[1]
+        C.d(fname, where, "value-vs-raw", "element %d: %r (decoding of bytes %s)" % (first[0], shown, raw[first[0] * size:(first[0] + 1) * size].hex()),
+            "%r (%d of %d elements differ)" % (first[2], bad, n), "format")
+
+
 # ----------------------------------------------------------------------------- Coq tie
 
 def coq_tie(C, tier, rng):
@@ -932,6 +1049,8 @@ def collect(H, tier, rng, only=None):
         else:
             summ["files_opened"] += 1
             summ["objects_returned"] += len(d["objects"])
+        if not d.get("openerr"):
+            consistency_file(C, rel.replace("testdata/", "", 1), o)
         b = sha_of_ddl_file.get(d.get("sha"))
         if b is None:
             continue
